@@ -36,7 +36,9 @@ class ExecHooks(Hooks):
             st.trace[-1].d["result"] = res
             return [("val", res, st), ("raise", exc, s2)]
         if n == "Event.set":
-            st.emit("event_set", ev=fn.info)
+            ex_ = st.ghost.get("executor")
+            at_set = {f: st.get(ex_).get(f) for f in ("_suspend_exception", "_fatal_exception")} if ex_ is not None else None
+            st.emit("event_set", ev=fn.info, at_set=at_set)
             return [("val", None, st)]
         if n == "TimerScheduler.schedule_resume":
             st.emit("schedule_resume", exe=args[0], at=args[1])
@@ -313,6 +315,7 @@ def on_task_complete(chk, prefix, want):
     ev = st.alloc("opaque:Event", {})
     self_ = st.alloc(P.cls("concurrency.executor.ConcurrentExecutor"), {"counters": counters, "_completion_event": ev, "_suspend_exception": None, "_fatal_exception": None, "executables_with_state": st.alloc("list", {"__kind__": "list", "items": (exe,)})})
     sr_cls = P.cls("concurrency.models.SuspendResult")
+    st.ghost["executor"] = self_
 
     def ses_summary(eng_, s, args, kwargs):
         sus = fresh("bool", "decision.should_suspend")
@@ -380,6 +383,10 @@ def on_task_complete(chk, prefix, want):
                         fatal = z3.And(z3.Not(isa("Exception")), z3.Not(isa("SuspendExecution")), z3.Not(orphan))
                         fatal_case = z3.And(fatal, z3.BoolVal(len(sets) == 1 and s.get(self_).get("_fatal_exception") == raised))
                     goal2 = z3.Or(z3.And(orphan, z3.BoolVal(not sets)), z3.And(stop, z3.BoolVal(len(sets) == 1 and sets[0].ev == ev), is_none(sus_exc)), fatal_case)
+                if sets and sets[0].at_set is not None:
+                    # what execute() reads after its wait() (no lock): both fields already have their final value when the event is set
+                    fin = s.get(self_)
+                    goal2 = z3.And(goal2, z3.BoolVal(all(sets[0].at_set[f] is fin.get(f) or sets[0].at_set[f] == fin.get(f) for f in ("_suspend_exception", "_fatal_exception"))))
                 chk.prove(f"{prefix}.exec.on_done_decides", s.pc, goal2,
                           desc="the completion event is set exactly when the policy is decided (should_complete), or when the suspend decision says suspend (the suspend exception is stored first), or when the branch ended with a non-Exception failure such as BackgroundThreadError (stored for execute() to re-raise)")
         if "C10" in want and raised is not None:
